@@ -700,11 +700,13 @@ package ucfg
 //@ ensures [fresh] fresh(result) && result.cfgPrimitive.ctx == ctx && result.cfgPrimitive.metadata == m && result.dyn == val
 
 //@ func (*cfgPrimitive).meta
+//@ props C15 C10
 //@ requires p != nil
 //@ pure
 //@ ensures result == p.metadata
 
 //@ func (*cfgPrimitive).Context
+//@ props C15 C10
 //@ requires p != nil
 //@ pure
 //@ ensures result == p.ctx
@@ -819,6 +821,7 @@ package ucfg
 //@ pred dictOK(to *Config, from *Config) := to != nil && to.fields != nil && from != nil && from.fields != nil && to.fields != from.fields && inTree(to, to) && inTree(to, to.fields) && (to.fields.d != nil ==> inTree(to, to.fields.d) && to.fields.d != from.fields.d) && (forall k string :: has(from.fields.d, k) ==> from.fields.d[k] != nil) && (forall k string :: has(to.fields.d, k) ==> to.fields.d[k] != nil && !inTree(cfgEval(to.fields.d[k]), to) && !inTree(cfgEval(to.fields.d[k]), to.fields) && !inTree(cfgEval(to.fields.d[k]), to.fields.d) && !inTree(cfgEval(to.fields.d[k]), from) && !inTree(cfgEval(to.fields.d[k]), from.fields) && !inTree(cfgEval(to.fields.d[k]), from.fields.d) && subtree(cfgEval(to.fields.d[k]), to))
 
 //@ func mergeConfigDict$1
+//@ props C01 C10
 //@ requires deref(to) != nil && deref(to).fields != nil
 //@ modifies deref(to).fields.d
 //@ ensures [keep] deref(ok) ==> deref(to).fields.d == old(deref(to).fields.d)
@@ -1195,6 +1198,7 @@ package ucfg
 //@ ensures opts.opts.activeFields == old(opts.opts.activeFields)
 
 //@ func reifyMap$1
+//@ props C08
 //@ requires deref(opts) != nil
 //@ modifies deref(opts).activeFields
 //@ ensures [restore] deref(opts).activeFields == deref(parentFields)
@@ -1207,6 +1211,7 @@ package ucfg
 //@ ensures [scope] opts.activeFields == old(opts.activeFields)
 
 //@ func (cfgSub).reify$1
+//@ props C08
 //@ requires deref(opts) != nil
 //@ modifies deref(opts).activeFields
 //@ ensures [restore] deref(opts).activeFields == deref(parentFields)
